@@ -348,7 +348,153 @@ def run(ck):
             else:
                 ck.violation("corr:" + key, "correspondence Model.lean vs writeBoundsChecks broken on %s" % q, rep, False)
 
+    # ------------------------------------------------------------------ generator wrappers (BehaviourCodeGeneratorBase.cxx)
+    # Which checks a generated behaviour contains: BehaviourCodeGeneratorBase::writeBoundsChecks /
+    # writePhysicalBoundsChecks (one statement per element of an array variable), writeBehaviourCheckBounds (physical
+    # bounds always; standard bounds unless the policy is fixed to None) and the end of writeBehaviourIntegrator
+    # (persistent variables after integration). The sources of the tree under test are compiled into harness/C27/gen.cxx;
+    # the expected statements are those of the real mfront::write(Physical)BoundsChecks (validated above) for every
+    # element of every bounded variable.
+    msrc = vlib.REPO + "/mfront/src/"
+    gsrcs = ["C27/gen.cxx"] + [msrc + n + ".cxx" for n in (
+        "BehaviourCodeGeneratorBase", "CodeGeneratorUtilities", "AbstractBehaviourCodeGenerator",
+        "FiniteStrainBehaviourTangentOperatorConversion", "FiniteStrainBehaviourTangentOperatorConversionPath",
+        "MFrontMaterialPropertyInterface", "PerformanceProfiling", "CMaterialPropertyInterfaceBase")]
+    ginc = [vlib.REPO + "/mfront/include", "/repo/_build/include"]
+    gobjs = ck.cxx_many([("c27g_%d.o" % i, [u], ("-c",)) for i, u in enumerate(gsrcs)], includes=ginc, opt="-O0")
+    lf2, _ = libflags(["TFELMFront", "TFELConfig", "TFELUtilities", "TFELException", "TFELGlossary", "TFELSystem",
+                       "TFELMaterial", "TFELMath", "TFELMathParser", "TFELUnicodeSupport", "MFrontLogStream"])
+    generator = ck.cxx("c27g", [gobjs["c27g_%d.o" % i] for i in range(len(gsrcs))], libs=lf2, opt="-O0")
+    CATS = ["mp", "sv", "asv", "esv", "loc"]
+
+    def gbounds(kind, lo, up):
+        return "-" if kind is None else {"lower": "lower,%s" % lo, "upper": "upper,%s" % up, "both": "both,%s,%s" % (lo, up)}[kind]
+    greqs = []
+    n_gen = 250 if ck.quick else 5000
+    for gi in range(n_gen):
+        pol = rng.choice(["None", "Warning", "Strict"])
+        runtime = rng.randint(0, 1)
+        disabled = 1 if rng.random() < 0.2 else 0
+        if gi < 12:      # directed: every category x array, every policy setting
+            pol, runtime, disabled = ["None", "Warning", "Strict"][gi % 3], (gi // 3) % 2, (gi // 6) % 2
+        vs = []
+        for k in range(rng.randint(1, 6) if gi >= 12 else 5):
+            cat = CATS[k] if gi < 12 else rng.choice(CATS)
+            ty = rng.choice(types)
+            size = rng.choice([1, 1, 2, 3]) if gi >= 12 else [1, 2, 3, 1, 2][(k + gi) % 5]
+            pk = rng.choice([None, "lower", "upper", "both"])
+            plo, pup = rng.randint(-50, 0), rng.randint(100, 200)
+            # standard bounds compatible with the physical ones (inside them, and bounded wherever they are)
+            choices = [None, "both"] + ([pk] if pk else ["lower", "upper"])
+            sk = rng.choice(choices)
+            slo, sup = plo + rng.randint(1, 20), pup - rng.randint(1, 20)
+            if gi < 12:
+                pk, sk = ["both", "lower", "upper", "both", None][k], ["both", "lower", "upper", None, "both"][k]
+            vs.append({"cat": cat, "type": ty, "name": "v%d%s" % (k, cat), "size": size, "pk": pk, "plo": str(plo), "pup": str(pup),
+                       "sk": sk, "slo": str(slo), "sup": str(sup)})
+        greqs.append({"policy": pol, "runtime": runtime, "disabled": disabled, "vars": vs})
+
+    def gline(g):
+        return "gen\t%s\t%d\t%d\t%s\n" % (g["policy"], g["runtime"], g["disabled"], ";".join(
+            "%s:%s:%s:%d:%s:%s" % (v["cat"], v["type"][0], v["name"], v["size"], gbounds(v["pk"], v["plo"], v["pup"]),
+                                   gbounds(v["sk"], v["slo"], v["sup"])) for v in g["vars"]))
+    # statements of the real mfront::write(Physical)BoundsChecks for every element
+    el_req, el_idx = [], {}
+    for g in greqs:
+        for v in g["vars"]:
+            names = [v["name"]] if v["size"] == 1 else ["%s[%d]" % (v["name"], i) for i in range(v["size"])]
+            for nm in names:
+                for ph in (1, 0):
+                    kind = v["pk"] if ph else v["sk"]
+                    if kind is None:
+                        continue
+                    for ce in (0, 1):
+                        key = (nm, v["type"][0], kind, v["plo"] if ph else v["slo"], v["pup"] if ph else v["sup"], ph, ce)
+                        if key not in el_idx:
+                            el_idx[key] = len(el_req)
+                            el_req.append(mk(nm, v["type"], 1, kind, key[3], key[4], "N", "policy", 1, ce, ph))
+    pel = ck.run([emitter], input="".join(eline(q) for q in el_req), timeout=900)
+    el_out = [l.split("\t") for l in pel.stdout.split("\n")]
+
+    def stmts_of(key):
+        a = el_out[el_idx[key]]
+        q = el_req[el_idx[key]]
+        if len(a) != 4 or not property_holds_emission(q, a[3], a[1], a[2]):
+            return None
+        return [x + ";" for x in a[3].replace("\\n", "\n").split(";\n") if x]
+
+    def expected_generator(g):
+        def part(cats_end, ph):
+            out = []
+            for cat, ce in cats_end:
+                for v in g["vars"]:
+                    if v["cat"] not in cat:
+                        continue
+                    kind = v["pk"] if ph else v["sk"]
+                    if kind is None:
+                        continue
+                    names = [v["name"]] if v["size"] == 1 else ["%s[%d]" % (v["name"], i) for i in range(v["size"])]
+                    for nm in names:
+                        st = stmts_of((nm, v["type"][0], kind, v["plo"] if ph else v["slo"], v["pup"] if ph else v["sup"], ph, ce))
+                        if st is None:
+                            return None
+                        out += st
+            return out
+        order = [(("mp",), 0), (("sv", "asv"), 0), (("esv",), 1), (("loc",), 0)]
+        phys, std = part(order, 1), part(order, 0)
+        iphys, istd = part([(("sv", "asv"), 0)], 1), part([(("sv", "asv"), 0)], 0)
+        if None in (phys, std, iphys, istd):
+            return None, None
+        check_bounds = not (not g["runtime"] and g["policy"] == "None")
+        return phys + (std if check_bounds else []), ([] if g["disabled"] else iphys + istd)
+    pg = ck.run([generator], input="".join(gline(g) for g in greqs), timeout=900)
+    gout = pg.stdout.split("\n")
+    g_dis = 0
+    gclasses = set()
+    for i, g in enumerate(greqs):
+        a = gout[i].split("\t") if i < len(gout) else ["missing"]
+        exp_cb, exp_int = expected_generator(g)
+        if exp_cb is None:
+            continue      # the element statements themselves are wrong: reported by the emission part above
+        if len(a) != 2 or a[0] == "exception":
+            g_dis += 1
+            key = "corr:BehaviourCodeGeneratorBase.cxx:generator-harness"
+            if key not in reported:
+                reported.add(key)
+                ck.violation(key, "the generator harness failed on %s: %s" % (gline(g).strip(), a[:2]), {"request": g, "answer": a[:3]}, False)
+            continue
+        got_cb = [l.strip() for l in a[0].replace("\\n", "\n").split("\n") if "BoundsCheck<" in l]
+        got_int = [] if a[1] == "none" else [l.strip() for l in a[1].replace("\\n", "\n").split("\n") if "BoundsCheck<" in l]
+        for v in g["vars"]:
+            gclasses.add((v["cat"], v["size"] > 1, v["pk"], v["sk"], g["policy"], g["runtime"], g["disabled"]))
+        for site, got, exp in (("writeBehaviourCheckBounds", got_cb, exp_cb), ("writeBehaviourIntegrator", got_int, exp_int)):
+            if a[1].startswith("exception") and site == "writeBehaviourIntegrator":
+                got = None
+            if got == exp:
+                continue
+            g_dis += 1
+            same_multiset = got is not None and sorted(got) == sorted(exp)
+            missing = [x for x in exp if got is None or x not in got]
+            extra = [x for x in (got or []) if x not in exp]
+            key = "BehaviourCodeGeneratorBase.cxx:%s:%s" % (site, "order" if same_multiset else ("missing-check" if missing else "unexpected-check"))
+            if key in reported:
+                continue
+            reported.add(key)
+            rep = {"behaviour_description": g, "request_line": gline(g).strip(), "site": site, "emitted_statements": got,
+                   "required_statements": exp, "missing": missing, "unexpected": extra, "integrator_answer": a[1][:300] if got is None else None}
+            if same_multiset or got is None:
+                ck.violation("corr:" + key, "%s emits the required bounds checks in another order / could not be run (%s)" % (site, gline(g).strip()[:200]), rep, False)
+            else:
+                ck.violation(key, "%s, default policy %s, runtime modification %d, runtime checks disabled %d: the generated code %s" %
+                             (site, g["policy"], g["runtime"], g["disabled"],
+                              ("lacks the check '%s'" % missing[0]) if missing else ("contains the check '%s' that no declared bound asks for" % extra[0])), rep, True)
+    ck.log("generator wrappers: %d descriptions, %d disagreements" % (len(greqs), g_dis))
+
     ck.assumptions += [
+        "generator: BehaviourCodeGeneratorBase.cxx (writeBoundsChecks, writePhysicalBoundsChecks, writeBehaviourCheckBounds, end of "
+        "writeBehaviourIntegrator) of the tree under test is compiled into harness/C27/gen.cxx and run on seeded BehaviourDescriptions "
+        "(UNDEFINEDHYPOTHESIS, small strain); required statements = those of the real mfront::write(Physical)BoundsChecks for every element "
+        "of every bounded variable, in the order material properties, persistent, external state (also end of step), local variables",
         "M: Model.lean is hand-written; it is tied to BoundsCheck.hxx/BoundsCheck.cxx and to CodeGeneratorUtilities.cxx only on the "
         "requests the correspondence ran (exhaustive over forms x N x kinds x policies x positions around the bounds incl. 1-ulp "
         "neighbours, tensors over {below, inside, above}^ncomp; seeded random beyond)",
@@ -356,21 +502,21 @@ def run(ck):
         "default argument `p = Strict` is observed by calling the real templates without the policy argument (policy 'dflt')",
         "emission: number formatting is the C++ stream's (precision 14 as set by the behaviour generators), passed through to the model; "
         "v.isScalar() is SupportedTypes' (cross-checked against the expected flag of the 9 types used)",
-        "emission: BehaviourCodeGeneratorBase::writeBoundsChecks/writePhysicalBoundsChecks (thin wrappers passing \"N\", \"policy\", addThis=true) are read, not executed",
         "libraries other than the anchored sources come from %s" % used_build,
         "NaN values are outside the property's quantifier; observed: a NaN value under Strict gives '%s'" % nan_obs,
     ]
     idx = [0, len(reqs) // 5, len(reqs) // 2, len(reqs) - 1]
     return ck.finish({
-        "evaluations": len(reqs) + len(ereqs),
-        "distinct_nontrivial": len(classes) + len(eclasses),
+        "evaluations": len(reqs) + len(ereqs) + len(greqs),
+        "distinct_nontrivial": len(classes) + len(eclasses) + len(gclasses),
+        "generator_requests": len(greqs), "generator_classes": len(gclasses),
         "rule": "runtime: distinct (operand form, N, check kind, policy, per-component out/in pattern) with at least one component out of "
                 "bounds (measured on the request list); emission: distinct (scalar, has bounds, bounds type, addThis, end-of-step, physical) "
                 "flag combinations (measured)",
         "exhaustive": True,
         "runtime_requests": len(reqs), "emission_requests": len(ereqs),
         "runtime_classes": len(classes), "emission_classes": len(eclasses),
-        "disagreements": disagreements + e_dis,
+        "disagreements": disagreements + e_dis + g_dis,
         "outcome_histogram": hist,
         "traces_validated_against_impl": len(reqs) + len(ereqs),
         "nan_observation": nan_obs,
